@@ -7,10 +7,40 @@ From AK Require Export Common.Sx Common.Err LLP.Build gen.C04_Consts C04.Model.
 Import ListNotations.
 Open Scope Z_scope.
 
+(* [expected] is the canonical observation of the implementation on the same case.  The
+   comparison is made here and only its outcome is printed: () when the model's observation
+   is identical, otherwise (-1 path model-part implementation-part) for the first difference.
+   (Printing whole observations of a shard overflows coqc's stack above ~30k characters.) *)
 Inductive case :=
 | Case (cfg : lexcfg) (skip : option (list sym))
        (ug : list (sym * list (list sym))) (smart : bool) (start : sym) (fuel : nat)
-       (inp : input).
+       (inp : input) (expected : sx).
+
+Fixpoint sx_diff (a b : sx) : option (list Z * sx * sx) :=
+  match a, b with
+  | SZ x, SZ y => if x =? y then None else Some ([], a, b)
+  | SL l, SL m =>
+      (fix go (i : Z) (l m : list sx) : option (list Z * sx * sx) :=
+         match l, m with
+         | [], [] => None
+         | x :: l', y :: m' =>
+             match sx_diff x y with
+             | Some (p, u, v) => Some (i :: p, u, v)
+             | None => go (i + 1) l' m'
+             end
+         | _, _ => Some ([i], SL l, SL m)
+         end) 0 l m
+  | _, _ => Some ([], a, b)
+  end.
+
+Fixpoint sx_trunc (depth : nat) (s : sx) : sx :=
+  match depth with
+  | O => SL []
+  | S d => match s with
+           | SZ _ => s
+           | SL l => SL (map (sx_trunc d) (firstn 10 l))
+           end
+  end.
 
 Definition sx_text (r : res (list Z)) : sx := sx_res sx_str r.
 
@@ -32,9 +62,9 @@ Definition effective_skip (terminals : list sym) (skip : option (list sym)) : li
   | None => filter (fun s => mem s terminals) default_skip
   end.
 
-Definition run (c : case) : sx :=
+Definition observe (c : case) : sx :=
   match c with
-  | Case cfg skip ug smart start fuel inp =>
+  | Case cfg skip ug smart start fuel inp _ =>
       let terminals := cfg_terminals cfg in
       match build ug terminals smart start with
       | Err e => SL [SZ 3; SZ (err_code e)]
@@ -48,5 +78,14 @@ Definition run (c : case) : sx :=
                   sx_res (sx_tree_txt olines)
                          (p_parse p fuel (drop_skipped (effective_skip terminals skip) toks))]
           end
+      end
+  end.
+
+Definition run (c : case) : sx :=
+  match c with
+  | Case _ _ _ _ _ _ _ expected =>
+      match sx_diff (observe c) expected with
+      | None => SL []
+      | Some (p, u, v) => SL [SZ (-1); SL (map SZ p); sx_trunc 4 u; sx_trunc 4 v]
       end
   end.
